@@ -11,7 +11,7 @@
 EXTENDS QTemplateParseImpl, Json, IOUtils, Integers
 Tr == ndJsonDeserialize(IOEnv.TRACE)
 VARIABLE l
-tvars == <<conts, ps, cur, child, ltag, nid, bad, phase, n, l>>
+tvars == <<conts, ps, cur, child, ltag, nid, bad, phase, n, hist, l>>
 
 TokName(i) == CASE i = 1 -> "CLOSE" [] i = 2 -> "VAR" [] i = 3 -> "RAW" [] i = 4 -> "MATH" [] i = 5 -> "SVAR" [] i = 6 -> "IIF"
                 [] i = 7 -> "LOOP" [] i = 8 -> "LOOPEND" [] i = 9 -> "IF" [] i = 10 -> "IFEND" [] i = 11 -> "ELSE"
@@ -36,19 +36,19 @@ MatchesS(e, cs, st, cu, lt, ch) == LET CP == ContPaths(cs, 1, <<>>, Fuel) IN
     /\ (IF ch THEN 1 ELSE 0) = e.ch
 Matches(e) == MatchesS(e, conts, ps, cur, ltag, child)
 
-Reset == /\ conts' = << <<>> >> /\ ps' = <<>> /\ cur' = 1 /\ child' = FALSE /\ ltag' = 0 /\ nid' = 1 /\ bad' = "" /\ phase' = "scan" /\ n' = 0
+Reset == /\ conts' = << <<>> >> /\ ps' = <<>> /\ cur' = 1 /\ child' = FALSE /\ ltag' = 0 /\ nid' = 1 /\ bad' = "" /\ phase' = "scan" /\ n' = 0 /\ hist' = <<>>
 Ev == Tr[l]
 LastOfCase == l = Len(Tr) \/ Tr[l + 1].i = 0
 \* the step the event asks for, accepted when it leads to the state the next event logged
 Good == /\ ~LastOfCase
-        /\ \/ /\ Ev.tok \in 1..11 /\ Token(TokName(Ev.tok)) /\ UNCHANGED <<phase, n>>
+        /\ \/ /\ Ev.tok \in 1..11 /\ Token(TokName(Ev.tok)) /\ UNCHANGED <<phase, n, hist>>
            \/ /\ Ev.tok = 0 /\ End
         /\ l' = l + 1
         /\ MatchesS(Tr[l + 1], conts', ps', cur', ltag', child')
 \* next case: the index of the next event with i = 0
 RECURSIVE NextCase(_)
 NextCase(i) == IF i > Len(Tr) \/ Tr[i].i = 0 THEN i ELSE NextCase(i + 1)
-TInit == /\ conts = << <<>> >> /\ ps = <<>> /\ cur = 1 /\ child = FALSE /\ ltag = 0 /\ nid = 1 /\ bad = "" /\ phase = "scan" /\ n = 0 /\ l = 1
+TInit == /\ conts = << <<>> >> /\ ps = <<>> /\ cur = 1 /\ child = FALSE /\ ltag = 0 /\ nid = 1 /\ bad = "" /\ phase = "scan" /\ n = 0 /\ hist = <<>> /\ l = 1
 TNext ==
   \/ /\ l <= Len(Tr)
      /\ IF LastOfCase
